@@ -133,6 +133,23 @@ def check(ctx):
             want = f"{names[0]}(error)"
             b = _reducer(ret, *names)
             ok = b is ERR and (ret.op != "call" or not ret.args[2])
+        if not ok:
+            # a different but possibly equivalent formulation is not judged:
+            # only a recognised reducer with a wrong operand / option is
+            expected = {"rmse": ("numpy.mean", "numpy.average"),
+                        "sse": ("numpy.sum",), "std": ("numpy.std",),
+                        "mean": ("numpy.mean",), "median": ("numpy.median",),
+                        "max": ("numpy.max", "numpy.amax"),
+                        "min": ("numpy.min", "numpy.amin")}[m]
+            known = any(is_call_to(x, *expected) for x in r.ret.walk()) or \
+                any(is_call_to(x, "numpy.mean", "numpy.sum", "numpy.std",
+                               "numpy.median", "numpy.max", "numpy.min",
+                               "numpy.amax", "numpy.amin", "numpy.var")
+                    for x in r.ret.walk())
+            if not known:
+                ctx.undecidable("C12.1", f, f"statistic {m}: formulation "
+                                f"not recognised: {fmt(r.ret)}")
+                continue
         ctx.ob("C12.1", f, ok,
                f"statistic {m} = {want}" if ok else
                f"statistic {m} is computed as {fmt(r.ret)} — the definition "
